@@ -45,3 +45,8 @@ CLAIMED["C07"] = (
  "static analysis: interprocedural backward provenance of every storage/cache/bundle sink argument (secret sources vs key-encryption results), who-may-write rule for the secret fields of the serialised ring, verify-then-parse and swallowed-error rules, path-provenance and containment-predicate rule for the directory back end, permission-constant rule",
  "Decides that the data argument of every private-key write, cache insertion, ring secret field and export payload derives only from key-encryption results (or public/non-key data), that only addKeyData and the export copy write the ring's secret fields, that verifyKeyRing parses only the verified payload on the success edge under a path-derived context and swallows no error, that every os call of the directory back end takes a path that went through osPath and osPath has an effective containment test against the root, and that creations use the 0600/0700/0644 constants. That a copied key file fails to load and byte-level tamper detection are cryptographic and not decided; owner/purpose binding of contexts is decided as R02.4 under C02.",
  NOTE, "DESIGN.md §2 C07")
+
+CLAIMED["C15"] = (
+ "static analysis: CFG order/reachability rules on the proxy factories (events identified by the static type of the registered object), dominance rules in the poison detector, must-precede rule over every decryption-failure exit of the translator operations, who-may-call rule for the callback storage",
+ "Decides that in both proxies and the translator the poison detector is registered (before the decrypt handler, on the 'callbacks configured' edge), that the intrusion callbacks run only and always on the success edge of a trial decryption made with the poison keys, that nobody else invokes them, that all four translator Decrypt* operations check for poison on every decryption-failure exit, and that a callback error aborts the column before delivery. Detection at arbitrary offsets and under rotated poison keys (tag scanning + crypto) is not decided.",
+ NOTE, "DESIGN.md §2 C15")
